@@ -537,6 +537,7 @@ class CGen:
     def generate(self, entries, model_names, extra_defs=""):
         m = self.m
         funcs, globs = self.reachable(entries)
+        self.live_funcs = funcs
         self.model_names = model_names
         body = []
         protos = []
@@ -547,6 +548,8 @@ class CGen:
             ct = self.ctype(g.ty)
             nm = self.gname(gn)
             tl = "__thread " if g.tls else ""
+            if g.const and g.init is not None:
+                tl = "const " + tl
             if g.init is None:
                 gl.append((nm, "%s%s %s;" % (tl, ct, nm), None))
             else:
@@ -572,8 +575,23 @@ class CGen:
             else:
                 protos.append(self.proto(f) + ";")
                 defs.append(f)
+        at = self.address_taken()
         for f in defs:
-            body.extend(self.func(f))
+            lines = self.func(f)
+            if f.name in at and not f.name.startswith("vp_main"):
+                nm = self.gname(f.name)
+                lines[0] = lines[0].replace(" %s(" % nm, " %s__body(" % nm, 1)
+                hdr = self.proto(f)
+                call = "%s__body(%s)" % (nm, ", ".join(self.lname_raw(p[1]) for p in f.params))
+                w = ["static VP_TLS int vp_depth_%s;" % nm, hdr, "{",
+                     '  if (vp_depth_%s >= VP_RECLIMIT) { __CPROVER_assert(0, "BOUND:re-entry depth of an address-taken function exceeds VP_RECLIMIT"); __CPROVER_assume(0); }' % nm,
+                     "  vp_depth_%s++;" % nm]
+                if f.ret.kind == "void":
+                    w += ["  %s;" % call, "  vp_depth_%s--;" % nm, "}"]
+                else:
+                    w += ["  %s r_ = %s;" % (self.ctype(f.ret), call), "  vp_depth_%s--;" % nm, "  return r_;", "}"]
+                lines = ["static " + lines[0].replace("static ", "")] + lines[1:] + w
+            body.extend(lines)
         out = []
         out.append("/* generated by ll2c */")
         out.append('#include "vp_pre.h"')
@@ -1334,13 +1352,30 @@ class CGen:
                 fty = A["fty"]
                 if fty is None:
                     fty = Type("func", ret=ins.ty, params=[a.ty for a in args], vararg=False)
-                fe = "((%s)%s)" % (self.fptype(fty), self.val(callee))
+                fe = None
+                cands = self.indirect_candidates(fty, args, callee)
+                fpv = self.val(callee)
                 cargs = [self.val(a) for a in args]
-            e = "%s(%s)" % (fe, ", ".join(cargs))
-            if res is not None:
-                st.append("%s = %s;" % (res, e))
-            else:
-                st.append(e + ";")
+                parts = []
+                for cf in cands:
+                    ca = []
+                    for i, a in enumerate(args):
+                        pt = cf.params[i][0]
+                        ca.append(cargs[i] if pt.key() == a.ty.key() else "(%s)%s" % (self.ctype(pt), cargs[i]))
+                    ce = "%s(%s)" % (self.gname(cf.name), ", ".join(ca))
+                    if res is not None:
+                        if cf.ret.key() != ins.ty.key():
+                            ce = "(%s)%s" % (self.ctype(ins.ty), ce)
+                        ce = "%s = %s" % (res, ce)
+                    parts.append("if ((u8*)%s == (u8*)&%s) { %s; }" % (fpv, self.gname(cf.name), ce))
+                parts.append('{ __CPROVER_assert(0, "MEM:indirect call through a pointer that is none of the %d address-taken candidates"); __CPROVER_assume(0); }' % len(cands))
+                st.append(" else ".join(parts))
+            if fe is not None:
+                e = "%s(%s)" % (fe, ", ".join(cargs))
+                if res is not None:
+                    st.append("%s = %s;" % (res, e))
+                else:
+                    st.append(e + ";")
         if is_invoke:
             st.append("if (vp_exc.active) { %s } else { %s }" % (self.goto(b.name, A["unwind"]), self.goto(b.name, A["normal"])))
         elif self.may_throw_callee(ins):
@@ -1378,6 +1413,120 @@ class CGen:
         if t is not None and t.kind == "int" and t.bits == 8:
             return None
         return t
+
+    def address_taken(self):
+        if getattr(self, "_addr_taken", None) is not None:
+            return self._addr_taken
+        at = set()
+
+        def scan(v):
+            if v is None:
+                return
+            if v.kind == "global" and v.v in self.m.funcs:
+                at.add(v.v)
+            if v.ops:
+                for o in v.ops:
+                    scan(o)
+        for g in self.m.globals.values():
+            scan(g.init)
+        for f in self.m.funcs.values():
+            for ins in f.instrs():
+                for o in ins.ops:
+                    scan(o)
+        self._addr_taken = at
+        return at
+
+    def first_field_chain(self, t):
+        """struct types reachable by repeatedly taking field 0 (base-class prefix chain)"""
+        out = []
+        seen = 0
+        while t is not None and seen < 12:
+            seen += 1
+            if t.kind == "named":
+                out.append(t.key())
+                if self.m.is_opaque(t):
+                    break
+                t = self.m.types[t.name]
+                continue
+            if t.kind == "struct":
+                out.append(t.key())
+                if not t.fields:
+                    break
+                t = t.fields[0]
+                continue
+            break
+        return out
+
+    def vtable_slots(self):
+        """function name -> set of slot indices (relative to the address point) in vtables of the module"""
+        if getattr(self, "_vslots", None) is not None:
+            return self._vslots
+        slots = {}
+        for g in self.m.globals.values():
+            if not g.name.startswith("_ZTV") or g.init is None or g.init.kind != "struct":
+                continue
+            for arr in g.init.ops:
+                if arr.kind != "array":
+                    continue
+                for i, o in enumerate(arr.ops):
+                    fn = self._strip_global(o)
+                    if fn in self.m.funcs:
+                        slots.setdefault(fn, set()).add(i - 2)
+        self._vslots = slots
+        return slots
+
+    def call_slot(self, callee):
+        """slot index if callee value is 'load (gep vptr, k)' with vptr loaded from an object"""
+        if callee.kind != "local":
+            return None
+        d = self.defs.get(callee.v)
+        if d is None or d.op != "load":
+            return None
+        p = d.ops[0]
+        if p.kind != "local":
+            return None
+        dp = self.defs.get(p.v)
+        if dp is None:
+            return None
+        if dp.op == "load":
+            return 0
+        if dp.op == "getelementptr" and len(dp.ops) == 2 and dp.ops[1].kind == "int":
+            b = dp.ops[0]
+            if b.kind == "local" and self.defs.get(b.v) is not None and self.defs[b.v].op == "load":
+                return dp.ops[1].v
+        return None
+
+    def indirect_candidates(self, fty, args, callee=None):
+        def kind(t):
+            if t.kind == "ptr":
+                return "p"
+            if t.kind in ("named", "struct", "array", "vector"):
+                return "agg%d" % self.m.sizeof(t)
+            return t.key()
+        want = (kind(fty.ret), tuple(kind(a.ty) for a in args))
+        slot = self.call_slot(callee) if callee is not None else None
+        vs = self.vtable_slots()
+        out = []
+        for n in sorted(self.address_taken()):
+            f = self.m.funcs[n]
+            if f.is_decl or n not in self.live_funcs or f.vararg:
+                continue
+            if len(f.params) != len(args):
+                continue
+            if (kind(f.ret), tuple(kind(p[0]) for p in f.params)) != want:
+                continue
+            if slot is not None:
+                # virtual call: only functions sitting at that slot of some vtable, whose 'this' class is
+                # related (by base-class prefix) to the static class at the call site
+                if n not in vs or slot not in vs[n]:
+                    continue
+                if args and args[0].ty.kind == "ptr" and f.params[0][0].kind == "ptr":
+                    a = self.first_field_chain(args[0].ty.elem)
+                    b = self.first_field_chain(f.params[0][0].elem)
+                    if a and b and a[0] not in b and b[0] not in a:
+                        continue
+            out.append(f)
+        return out
 
     def ptr_origin_type(self, v):
         """element type behind an i8* value that is a bitcast of T* (looking through the defining instr)"""
